@@ -28,7 +28,7 @@ for f in sorted(glob.glob('/verif/seeded/*/meta.json')):
     m['needs'] = squeeze(needs, 420)
     m['what_was_run'] = ('in the sub-agent\'s scratch worktree: git apply patch.diff; cargo build --offline; cargo test --workspace --no-fail-fast --offline '
                          '(158 baseline tests must pass, program_tests excepted as in the baseline); demo/run.sh must print FAIL with the change and PASS after git checkout; '
-                         'then every check\'s quick tier against a private clone of /repo HEAD with the patch applied (tools/seed_eval.py / tools/seed_recheck.py), '
+                         + ('then the quick tier of ' + ', '.join(m['checks_run']) + ' ' if m.get('checks_run') else 'then every check\'s quick tier ') + 'against a private clone of /repo HEAD with the patch applied (tools/seed_eval.py / tools/seed_recheck.py), '
                          'recorded under "checks"; /repo itself is never modified')
     json.dump(m, open(f, 'w'), indent=1)
     print(os.path.basename(d), '|', m['what'][:90], '|', m['needs'][:60])
